@@ -106,8 +106,9 @@ class SymBytes:
             return c.decode(*a, **k)
         # bytes produced by SymStr.encode decode back to the same symbolic characters when the span is aligned
         from .sxstr import SymStr
+        enc = (a[0] if a else k.get('encoding', 'utf-8')).lower().replace('_', '-')
         out, run, i, items = [], bytearray(), 0, self.items
-        ok = True
+        ok = enc in ('utf-8', 'utf8', 'utf-8-sig')
         while i < len(items):
             b = items[i]
             if isinstance(b, int):
@@ -136,6 +137,11 @@ class SymBytes:
                 except UnicodeDecodeError:
                     ok = False
         if ok:
+            if enc == 'utf-8-sig' and out:
+                # this codec drops a leading byte order mark (forks on a symbolic first character)
+                first = out[0]
+                if (first == '\ufeff') if isinstance(first, str) else bool(SymInt.mk(first.e) == 0xFEFF):
+                    out = out[1:]
             return SymStr(out)
         c = bytes(int(SymInt.mk(_bexpr(b))) if not isinstance(b, int) else b for b in self.items)
         return c.decode(*a, **k)
